@@ -20,6 +20,9 @@ CONSTANTS MaxEdits, StartId, EmitRecords
 VARIABLES old, new, edits
 
 vars == <<old, new, edits>>
+(* Model A may carry a Meta.db_table_comment, the same before and after the edits (changing it
+   is not a supported change on SQLite): every copy, diff and comparison has to carry it along *)
+Comments == {None, "c1"}
 
 Field(t, attrs) == [ftype |-> t, attrs |-> attrs, rel |-> None, data |-> "orig-nn"]
 FKField(target, attrs) == [ftype |-> "FK", attrs |-> attrs, rel |-> target, data |-> "orig-nn"]
@@ -62,7 +65,12 @@ Start(id) ==
 ModelNames == {"A", "B"}
 FieldNames == {"f", "g", "h"}
 
-Init == old = Start(StartId) /\ new = old /\ edits = 0
+Init == /\ \E c \in Comments :
+             old = [mn \in DOMAIN Start(StartId) |->
+                      IF mn = "A" THEN [x \in (DOMAIN Start(StartId)[mn]) \cup {"comment"} |->
+                                          IF x = "comment" THEN c ELSE Start(StartId)[mn][x]]
+                      ELSE Start(StartId)[mn]]
+        /\ new = old /\ edits = 0
 
 Step(n) == new' = n /\ edits' = edits + 1 /\ UNCHANGED old
 
